@@ -96,7 +96,7 @@ def retype(rng, cfg, sh):
 
 def make_case(rng, sh):
     nlev = rng.pick([1, 1, 2, 2, 3])
-    cfg = gen_di.gen_config(rng, {'deviate': 0.0, 'posonly': False, 'levels': nlev, 'nonunique': False,   # retype() below shares types
+    cfg = gen_di.gen_config(rng, {'deviate': 0.0, 'posonly': False, 'levels': nlev, 'nonunique': False, 'unique_dup': False,   # retype() below shares types
                                   'n_mws': rng.pick([1, 2, 3, 3, 4, 5])})
     if cfg['route'].get('render') is None:
         cfg['route']['render'] = {'fid': 'rn', 'form': 'function', 'params': [['context', 'req']]}
